@@ -88,6 +88,10 @@ func Diff(defs []meta.Definition, want, got *Tree, o CanonOpts, path string) (ki
 		default:
 			wl, wok := want.Leaves[id]
 			gl, gok := got.Leaves[id]
+			if o.ZeroLeafAbsent {
+				wok = wok && !zeroCanon(wl.Canon)
+				gok = gok && !zeroCanon(gl.Canon)
+			}
 			lk := "leaf"
 			if lf, ok := d.(meta.Leafable); ok && lf.HasDefault() {
 				lk = "default-leaf"
